@@ -120,7 +120,7 @@ impl Prop for C04 {
             Leg {
                 name: "random",
                 kind: LegKind::Random {
-                    cases: tier.pick(2500, 40_000),
+                    cases: tier.pick(40000, 300000),
                 },
                 workers: 16,
                 build: Build::Normal,
